@@ -327,7 +327,7 @@ HARNESSES = [
     assumptions=_ASSUME + ['1-2 frames with payload lengths 0..3, two cut positions anywhere in the stream incl. inside the 4-byte length prefix']),
   H('C01_parse', quick=dict(timeout=280, shards=[('line', 'not udp and second == 0'), ('udp1', 'udp and second <= 2')],
                             extra_pre=['len(metric) == 1', 'vi == 3 and ti == 8', 'lead == 0']),
-    thorough=dict(timeout=1500, shards=[('line', 'not udp and second == 0'), ('udp1', 'udp and second <= 2'), ('udp2', 'udp and second >= 3')]),
+    thorough=dict(timeout=900, shards=[('line', 'not udp and second == 0'), ('udp1', 'udp and second <= 2'), ('udp2', 'udp and second >= 3')]),
     covers=['parsed'], replay='replay_parse',
     encodes=['carbon.protocols:MetricLineReceiver.lineReceived', 'carbon.protocols:MetricDatagramReceiver.datagramReceived',
              'carbon.protocols:MetricReceiver.metricReceived'],
@@ -335,7 +335,7 @@ HARNESSES = [
                            'utf-8 decode(encode(s)) == s assumed for the symbolic name (bytes stand-in); real bytes in C01_parse_bytes and in the replay']),
   H('C01_parse_nums', quick=dict(timeout=280, extra_pre=['lead <= 1 and trail == 0', 'ni <= 1', 'vi % 2 == 0'],
                                  shards=[('line', 'not udp')] + [('udp_s%d' % k, 'udp and second == %d' % k) for k in range(6)]),
-    thorough=dict(timeout=1500, shards=[('line', 'not udp')] + [('udp_s%d_l%d' % (k, l), 'udp and second == %d and lead == %d' % (k, l)) for k in range(6) for l in range(4)]),
+    thorough=dict(timeout=900, extra_pre=['ni <= 3 and trail <= 1'], shards=[('line_v%d' % v, 'not udp and vi %% 4 == %d' % v) for v in range(4)] + [('udp_s%d_v%d' % (k, v), 'udp and second == %d and vi %% 4 == %d' % (k, v)) for k in range(6) for v in range(4)]),
     covers=['parsed'], replay='replay_parse_nums',
     encodes=['carbon.protocols:MetricLineReceiver.lineReceived', 'carbon.protocols:MetricDatagramReceiver.datagramReceived',
              'carbon.protocols:MetricReceiver.metricReceived'],
@@ -344,7 +344,7 @@ HARNESSES = [
     encodes=['carbon.protocols:MetricLineReceiver.lineReceived', 'carbon.protocols:MetricDatagramReceiver.datagramReceived'],
     assumptions=_ASSUME + ['names from a table of %d strings incl. non-ASCII and astral characters, encoded to real utf-8 bytes' % len(NAMES)]),
   H('C01_pickle_entries', quick=dict(timeout=280, extra_pre=['n <= 2', 'm0 <= 3', 'm1 == 1 and v1 == 0 and t1 == 1'], shards=[('v%d' % k, 'v0 %% 3 == %d' % k) for k in range(3)]),
-    thorough=dict(timeout=1500, shards=[('n%d_v%d' % (k, v), 'n == %d and v0 %% 4 == %d' % (k, v)) for k in range(4) for v in range(4)]),
+    thorough=dict(timeout=900, extra_pre=['m1 <= 1 and m2 <= 1 and v2 == 0 and t2 == 0'], shards=[('n%d_v%d' % (k, v), 'n == %d and v0 %% 4 == %d' % (k, v)) for k in range(4) for v in range(4)]),
     covers=['unpacked'], replay='replay_pickle_entries',
     encodes=['carbon.protocols:MetricPickleReceiver.stringReceived'],
     assumptions=_ASSUME + ['C pickle codec: loads(dumps(x)) == x for plain data (stub returns the entry list; the replay goes through the real codec in protocols 0, 2, 5)',
